@@ -24,7 +24,7 @@ TECHNIQUE = "property-based testing: Hypothesis random inputs, ALL/ANY results v
 DESIGN_REF = "DESIGN.md section 5 (C05)"
 RULE = (
     "Hypothesis cases as in C01-C03 (group plain: <=5 object/<=5 species leaves; ordered: <=5/<=4, <=4 families, consistent or not, optional "
-    "prescribed root; unordered: <=6/<=4, <=4 families), coherent costs.  Checked per algorithm of the group: canonical(ALL) has no repeats and "
+    "prescribed root; unordered: <=6/<=4, <=4 families; one more leaf on each side in the thorough tier), coherent costs.  Checked per algorithm of the group: canonical(ALL) has no repeats and "
     "equals the oracle's complete optimal set; ANY returns exactly one solution, member of that set; every returned solution valid with cost == "
     "optimum; empty iff the oracle has no solution.  Non-trivial: the optimal set has >=2 members (ties) and the object tree >=3 leaves; "
     "distinct by SHA-1 of the case."
@@ -44,20 +44,21 @@ GROUPS = {
 
 
 @st.composite
-def _case(draw):
+def _case(draw, big=False):
     group = draw(st.sampled_from(["plain", "ordered", "unordered", "plain", "unordered"]))
+    extra = 1 if big else 0
     if group == "plain":
-        case = draw(gen.rec_case(max_obj=5, max_sp=5, costs="coherent", labelled=False))
+        case = draw(gen.rec_case(max_obj=5 + extra, max_sp=5 + extra, costs="coherent", labelled=False))
     elif group == "ordered":
-        case = draw(gen.rec_case(max_obj=5, max_sp=4, costs="coherent", labelled=True, max_fam=4, prescribed_root=True))
+        case = draw(gen.rec_case(max_obj=5 + extra, max_sp=4 + extra, costs="coherent", labelled=True, max_fam=4, prescribed_root=True))
     else:
-        case = draw(gen.rec_case(max_obj=6, max_sp=4, costs="coherent", labelled=True, max_fam=4, allow_inconsistent=False))
+        case = draw(gen.rec_case(max_obj=6 + extra, max_sp=4 + extra, costs="coherent", labelled=True, max_fam=4, allow_inconsistent=False))
     case["_group"] = group
     return case
 
 
 def strategy(tier):
-    return _case()
+    return _case(big=(tier == "thorough"))
 
 
 def check(case):
